@@ -80,6 +80,8 @@ PROPS = {
     },
     "C09": {
         "engine": "cachesim",
+        "aux_test": "TestLockConformance",
+        "aux_n": {"quick": 200, "thorough": 5000},
         "level": "fault_enumeration",
         "runs": {"quick": 800, "thorough": 120000},
         "max_wall_s": {"quick": 0, "thorough": 1500},
